@@ -383,6 +383,31 @@ def checkTfmTable (kind : Nat) (charVals : List Int) (table : List Int) (idx : L
   let zeros := kind == 0 || charVals.all (fun v => v != 0 || lookupIdx idx v == some 0)
   (r.1, r.2.1, r.2.2, zeros)
 
+/-! ### The index remapping of `impl From<pl::File> for tfm::File` (one dimension) -/
+
+/-- Per-character lookups: widths `*width_to_index.get(&width).expect(…)` (`none` = panic),
+heights/depths/italics `….get(&v).copied().map(NonZeroU8::get).unwrap_or(0)`. -/
+def lookAll (kind : Nat) (m : List (Int × Nat)) : List Int → Option (List Nat)
+  | [] => some []
+  | v :: t =>
+    match (if kind = 0 then lookupIdx m v else some ((lookupIdx m v).getD 0)), lookAll kind m t with
+    | some i, some r => some (i :: r)
+    | _, _ => none
+
+/-- One dimension of `tfm::File::from(pl_file)`: `charVals` are the values of the characters (in
+character order; `unwrap_or_default()` already applied for widths), the result is the table
+written to the TFM file and the index every character gets. Widths are all compressed; zero
+heights/depths/italics are left out (`None | Some(FixWord::ZERO) => {}`) and get index 0. The
+class limit is the literal at the call site, which must be `tfmLimit kind`. -/
+def remapDim (kind : Nat) (charVals : List Int) : Out (List Int × List Nat) :=
+  let vals := if kind = 0 then charVals else charVals.filter (· != 0)
+  match compress vals (tfmLimit kind) with
+  | .panic => .panic
+  | .ok (table, m) =>
+    match lookAll kind m charVals with
+    | some idx => .ok (table, idx)
+    | none => .panic
+
 /-! ## Next-larger chains (TFtoPL §84, PLtoTF §110–113) -/
 
 /-- A functional graph: association list `smaller ↦ larger`, first match wins (`nlEdges`
